@@ -195,6 +195,12 @@ def oracle(ck, extended):
     for b in OD.BIORTS:
         for (H, W) in [(2, 2), (2, 11), (7, 3), (8, 8)]:
             rt.guard(ck, oracle_pr, ck, b, rng.choice(OD.QSHIFTS), rng.randint(1, 3), gen.float_tensor(ck.nprng, (1, 1, H, W)), 2, -1)
+    # sizes above every blocking / tiling threshold (gen.scale_shapes_2d) with EVERY level-1 family, several layouts
+    for k, shp in enumerate(gen.scale_shapes_2d(ck.tier)):
+        for i, b in enumerate(OD.BIORTS):
+            if not q or (k + i) % 2 == 1 or shp[2] > 500 or shp[3] > 500:
+                o, ri = (2, -1) if (k + i) % 3 else LAYOUTS[(k * 7 + i) % len(LAYOUTS)]
+                rt.guard(ck, oracle_pr, ck, b, OD.QSHIFTS[(k + i) % len(OD.QSHIFTS)], 1 + (k + i) % 3, gen.float_tensor(ck.nprng, shp), o, ri)
     for (Js, shape) in [((1, 3, 2, 4), (1, 2, 16, 12)), ((2, 3), (1, 1, 4, 4))] + ([] if q else [((3, 1, 5), (2, 1, 9, 14)), ((1, 2, 3, 4, 5), (1, 1, 32, 32))]):
         b, s = rng.choice(pairs)
         rt.guard(ck, oracle_depths, ck, b, s, Js, shape)
